@@ -16,7 +16,7 @@ def gen_graph(rng, n, cyclic):
                 edges[i].add(j)
     if cyclic:
         # close one simple cycle of length k (1 = a declaration that depends on itself) over randomly chosen nodes
-        k = rng.randint(1, n)
+        k = n if rng.random() < 0.5 else rng.randint(1, n)    # long cycles are the ones an incomplete closure computation misses
         ring = rng.sample(range(n), k)
         for a, b in zip(ring, ring[1:] + ring[:1]):
             edges[a].add(b)
